@@ -227,6 +227,17 @@ impl<R: DynamicChannelRegion> RegionHandler for DynamicChannelPlan<R> {
                 }
             }
             Frame::Data => {
+                // The mask may have been left without a usable channel (e.g. the last
+                // enabled channel was removed by a NewChannelReq). Sampling would then never
+                // end, so fall back to the always-defined default channels.
+                let usable = (0..NUM_CHANNELS_DYNAMIC as usize).any(|i| {
+                    self.channel_mask.is_enabled(i).unwrap_or(false) && self.channels[i].is_some()
+                });
+                if !usable {
+                    for i in 0..R::NUM_JOIN_CHANNELS as usize {
+                        self.channel_mask.set_channel(i, true);
+                    }
+                }
                 let mut channel = self.get_random_in_range(rng);
                 loop {
                     if self.channel_mask.is_enabled(channel).unwrap()
